@@ -621,6 +621,8 @@ def sequences(ctx):
   ok = 'self._melody.transpose(transpose_amount, min_note, max_note)' in calls and 'self._chords.transpose(transpose_amount)' in calls
   ctx.ob('SEQ/leadsheet-transpose', ls, ls.node, ok, 'melody and chords are transposed by the same amount' if ok else
          'LeadSheet.transpose does not apply one transpose_amount to both melody and chords: %s' % calls, construct='melody.transpose(a, ...) and chords.transpose(a)')
+  from rules import C17 as _c17
+  _c17.paired_on_every_exit(ctx, ls, 'transpose', 'SEQ/leadsheet-every-exit', mode='transpose')
   lq = ctx.func('lead_sheets_lib:LeadSheet.squash')
   asg = [s for s in lq.node.body if isinstance(s, ast.Assign) and isinstance(s.value, ast.Call) and norm_text(s.value.func) == 'self._melody.squash']
   ok = len(asg) == 1 and isinstance(asg[0].targets[0], ast.Name)
